@@ -514,6 +514,10 @@ def tomtom(Qs, Ts, n_nearest=None, n_score_bins=100, n_median_bins=1000,
 	if n_nearest is None:
 		n_nearest = -1
 
+	# The integer offset of a query is at most `n_score_bins`, so a scratchpad
+	# with a smaller cache can be overrun. Make sure it is large enough.
+	n_cache = max(n_cache, n_score_bins)
+
 	if isinstance(Ts[0], torch.Tensor):
 		Ts = [T.numpy(force=True) for T in Ts]
 
